@@ -521,7 +521,8 @@ func (r *FileRestorer) restoreIdent(n *dst.Ident, parentName, parentField, paren
 	r.applyDecorations(out, "Start", n.Decs.Start, false)
 
 	// Node: X
-	out.X = r.restoreNode(dst.NewIdent(name), "SelectorExpr", "X", "Expr", allowDuplicate).(ast.Expr)
+	x := dst.NewIdent(name)
+	out.X = r.restoreNode(x, "SelectorExpr", "X", "Expr", allowDuplicate).(ast.Expr)
 
 	// Token: Period
 	r.cursor += token.Pos(len(token.PERIOD.String()))
@@ -530,7 +531,8 @@ func (r *FileRestorer) restoreIdent(n *dst.Ident, parentName, parentField, paren
 	r.applyDecorations(out, "X", n.Decs.X, false)
 
 	// Node: Sel
-	out.Sel = r.restoreNode(dst.NewIdent(n.Name), "SelectorExpr", "Sel", "Ident", allowDuplicate).(*ast.Ident)
+	sel := dst.NewIdent(n.Name)
+	out.Sel = r.restoreNode(sel, "SelectorExpr", "Sel", "Ident", allowDuplicate).(*ast.Ident)
 
 	// Decoration: End
 	r.applyDecorations(out, "End", n.Decs.End, true)
@@ -540,6 +542,9 @@ func (r *FileRestorer) restoreIdent(n *dst.Ident, parentName, parentField, paren
 	// from (mirrors decorateSelectorExpr). This has to happen after X and Sel have been restored.
 	r.Dst.Nodes[out.X] = n
 	r.Dst.Nodes[out.Sel] = n
+	// The two temporary identifiers are not part of the dst tree: they must not stay in the map.
+	delete(r.Ast.Nodes, x)
+	delete(r.Ast.Nodes, sel)
 
 	return out
 
